@@ -35,6 +35,11 @@ def main():
         audit = core.run_audit(prop)
         if audit["problems"]:
             raise core.Infra("audit problems: %s" % audit["problems"])
+        if args.tier == "thorough":
+            lc = core.run_leanchecker()
+            audit["leanchecker"] = lc
+            if lc["returncode"] != 0 or "uncaught exception" in lc["output_tail"]:
+                raise core.Infra("leanchecker rejected the compiled proofs: %s" % lc["output_tail"])
         res = mod.run(args.tier, seed)
     except core.Infra as e:
         print("INFRASTRUCTURE FAILURE (%s): %s" % (prop, e), file=sys.stderr)
